@@ -27,6 +27,10 @@ CLAUSES = {"OnlyNeeded", "AtMostOnce", "StartAfterDepsExit0", "NoOverlapWithDepe
            "GroupRejectedIffExpansionRejected", "SameTaskGraph", "SameExecution"}
 
 
+BAD_ARGS = ["('x', 1)", "'xy'", "(a for a in [1, 2])", "{'a': 1}"]
+BAD_OPTS = ["[('threads', 1)]", "(('k', 2),)", "'k=2'"]
+
+
 def conc(tok):
     try:
         return int(tok)
@@ -34,13 +38,30 @@ def conc(tok):
         return tok
 
 
+class RawPy:
+    """A Python expression to be written verbatim into the COND file (for ill-typed values)."""
+
+    def __init__(self, src):
+        self.src = src
+
+    def __repr__(self):
+        return self.src
+
+    def __bool__(self):
+        return True
+
+
 def group_source(g, k):
     insts = []
     for i in g["insts"]:
         parts = ["name=%r" % i["name"]]
-        if i["args"] or k % 2:
+        if i["args"] == ["__BAD__"]:
+            parts.append("args=%s" % BAD_ARGS[k % len(BAD_ARGS)])
+        elif i["args"] or k % 2:
             parts.append("args=%r" % [conc(a) for a in i["args"]])
-        if i["opts"] or k % 3 == 0:
+        if i["opts"] == [["__BAD__", "x"]]:
+            parts.append("options=%s" % BAD_OPTS[k % len(BAD_OPTS)])
+        elif i["opts"] or k % 3 == 0:
             parts.append("options=%r" % {o[0]: conc(o[1]) for o in i["opts"]})
         if i["par"] or k % 2 == 0:
             parts.append("parallelizable=%r" % bool(i["par"]))
@@ -60,8 +81,9 @@ def explicit_tasks(expansion):
     for d in expansion:
         if d["ctor"] == "run_experiment":
             tasks.append({"pkg": "", "name": d["name"], "kind": "run_experiment", "deps": list(d["deps"]), "run": d["run"],
-                          "par": bool(d["par"]), "args": [conc(a) for a in d["args"]],
-                          "options": {o[0]: conc(o[1]) for o in d["opts"]}, "force_deps": True})
+                          "par": bool(d["par"]), "args": RawPy("('x', 1)") if d["args"] == ["__BAD__"] else [conc(a) for a in d["args"]],
+                          "options": RawPy("[('threads', 1)]") if d["opts"] == [["__BAD__", "x"]] else {o[0]: conc(o[1]) for o in d["opts"]},
+                          "force_deps": True})
         else:
             tasks.append({"pkg": "", "name": d["name"], "kind": "combine", "deps": list(d["deps"]), "force_deps": True})
     return tasks
@@ -141,7 +163,7 @@ def main(tier):
     insts = C.tlc_printed_json(ex)
     rng.shuffle(insts)
     if tier == "quick":
-        three = [i for i in insts if len(i["g"]["insts"]) >= 3]
+        three = [i for i in insts if len(i["g"]["insts"]) >= 3 or any(x["args"] == ["__BAD__"] or x["opts"] == [["__BAD__", "x"]] for x in i["g"]["insts"])]
         rej = [i for i in insts if i["rejected"] and len(i["g"]["insts"]) < 3][:100]
         acc = [i for i in insts if not i["rejected"] and len(i["g"]["insts"]) < 3][:350]
         insts = three + rej + acc
